@@ -132,7 +132,7 @@ def run(ctx):
     dm = ctx.func(KCQ + "._decode_message")
     et, _ = W.encoder_terms(prog, em)
     enc = {}
-    for t in et:
+    for t in W.hoist_alt(et, "magic"):
         if t[0] == "ALT":
             for c, b in t[1]:
                 for mag in (0, 1):
@@ -178,8 +178,13 @@ def run(ctx):
         cn = ctx.cfg(nested)
         fn = ctx.facts(nested)
         table = {}
-        mask = [x for x in walk_body_shallow(nested.body) if isinstance(x, ast.Assign) and isinstance(x.value, ast.BinOp) and isinstance(
-            x.value.op, ast.BitAnd) and "ATTRIBUTE_CODEC_MASK" in norm(x.value)]
+        # the codec variable may be computed in the per-format decoder or once in the enclosing dispatcher (closure)
+        mask = []
+        scope = nested
+        while scope is not None and not mask:
+            mask = [x for x in walk_body_shallow(scope.body) if isinstance(x, ast.Assign) and isinstance(x.value, ast.BinOp) and isinstance(
+                x.value.op, ast.BitAnd) and "ATTRIBUTE_CODEC_MASK" in norm(x.value)]
+            scope = scope.parent
         cv = norm(mask[0].targets[0]) if mask else "codec"
         for n in cn.nodes:
             for c in n.calls():
